@@ -38,6 +38,39 @@ def run_c12(prop, tier):
                     # quick: every offset of the first stream, boundaries +-2 bytes of the others
                     pass
                 jobs.append((name, label, files, verdict))
+        # thorough: a structurally invalid stream stays invalid whatever happens to the files of the OTHER streams:
+        # representative invalid corruptions of one stream.obs (cut inside every event, every swap, every header byte)
+        # x every single corruption of another stream's files
+        npairs = 0
+        if tier != "quick":
+            for name, tr in traces.items():
+                if len(tr) < 2:
+                    continue
+                basef = mutate.files_of(tr)
+                bounds = {rel: set(mutate.boundaries(t["events"])) for rel, t in tr.items()}
+                singles = []
+                for (label, files, verdict) in mutate.operators(tr, tier):
+                    changed = [p for p in basef if files.get(p) != basef[p]] + [p for p in files if p not in basef]
+                    if len(changed) == 1:
+                        singles.append((label, changed[0], files[changed[0]] if changed[0] in files else None, verdict))
+                for (la, pa, da, va) in singles:
+                    k = la.split(":")[0]
+                    if va != "invalid" or not pa.endswith("stream.obs") or k not in ("trunc", "swap", "hdr"):
+                        continue
+                    if k == "trunc" and (int(la.split(":")[-1]) - 1) not in bounds[la.split(":")[1]]:
+                        continue        # one cut per event: one byte into it
+                    rela = pa.rsplit("/", 1)[0]
+                    for (lb, pb, db, vb) in singles:
+                        if pb.rsplit("/", 1)[0] == rela:
+                            continue
+                        f = dict(basef)
+                        f[pa] = da
+                        if db is None:
+                            f.pop(pb, None)
+                        else:
+                            f[pb] = db
+                        jobs.append((name, "pair:%s+%s" % (la, lb), f, "invalid"))
+                        npairs += 1
 
         def one(j):
             name, label, files, verdict = j
@@ -71,6 +104,7 @@ def run_c12(prop, tier):
                            "every single corruption: truncation at every byte offset, swap of every adjacent pair of events with different clocks, every header "
                            "byte x {00,ff,+1}, model byte of every event -> not-required / unregistered model, unknown value, every wrong payload size of "
                            "size-checked events, jumbo type event replaced by a non-jumbo one, removal / 6 replacement values of every metadata key, truncated JSON; "
+                           "thorough: representative invalid corruptions of one stream combined with every corruption of another stream's files (%d pairs); " % npairs +
                            "non-trivial = corruptions that are invalid by the specification (a demand exists)")
         ctx.sample({"base": "nosv", "corruption": "trunc:loom.n0/proc.100/thread.101:57", "demand": "rejected"})
         ctx.sample({"base": "mpi", "corruption": "meta-rm:loom.n0/proc.100/thread.101:ovni.finished", "demand": "rejected"})
